@@ -379,7 +379,7 @@ def failure_key(case, why):
     return f"C18/{case['op']}"
 
 
-def translation_tie(ctx, out):
+def translation_tie(ctx, out, pid="C18"):
     """Second tie to the source: re-translate the pure Rectangle methods from the repository's current
     geometry.py into Gallina (harness/translate_rect.py, fail-closed) and let Coq prove each generated
     definition equal to the hand-written model function (harness/gen/RectGenOk.v.in)."""
@@ -413,7 +413,7 @@ def translation_tie(ctx, out):
     out.extra["translation_tie"] = res
     if not res["proved_equal"]:
         out.disagreements.append({
-            "key": "C18/translation-tie", "explained": False,
+            "key": f"{pid}/translation-tie", "explained": False,
             "why": "the Rectangle methods re-translated from the current source are no longer proved equal to the model "
                    "(or could not be translated): " + res.get("error", "")[:1500],
             "case": {"file": "frame/geometry/geometry.py", "lemmas": "harness/gen/RectGenOk.v.in"}})
